@@ -656,13 +656,13 @@ impl Rig for ExRig {
         "a run is one (extractor, limit, decoded length around the limit, content coding, declared length, chunking with Pending, optional stream fault) executed twice — under the drawn chunking/Pending pattern and as a single chunk; non-trivial = at least two chunks pulled or a Pending actually returned; distinct = distinct scenario tuple"
     }
     fn real_components(&self) -> Vec<&'static str> {
-        vec!["actix_web FromRequest for Bytes / String / Json<T> / Form<T> (HttpMessageBody, JsonBody, UrlEncoded)", "web::Payload::to_bytes_limited (body::to_bytes_limited)", "actix_http::encoding::Decoder (gzip, deflate, br, zstd; in-place and spawn_blocking paths)"]
+        vec!["actix_web FromRequest for Bytes / String / Json<T> / Form<T> (HttpMessageBody, JsonBody, UrlEncoded)", "web::Payload::to_bytes_limited (body::to_bytes_limited)", "actix_multipart::form::MultipartForm<T> with bytes::Bytes / text::Text fields and Limits", "actix_http::encoding::Decoder (gzip, deflate, br, zstd; in-place and spawn_blocking paths)"]
     }
     fn stub_components(&self) -> Vec<&'static str> {
         vec!["request payload stream (scripted chunks, Pending, error, truncation)", "wake-driven executor on the paused clock", "third-party codecs used as encoders (flate2, brotli, zstd)", "counting allocator"]
     }
     fn assumptions(&self) -> Vec<&'static str> {
-        vec!["MultipartForm field limits are not driven by this rig (multipart parsing itself is C15)", "live-heap bound checked for identity/gzip/deflate only (brotli/zstd contexts are megabytes by themselves)"]
+        vec!["MultipartForm is driven with one in-memory field (bytes or text) under the total and memory limits of MultipartFormConfig; per-field limit attributes and temp-file fields are not driven (multipart parsing itself is C15)", "live-heap bound checked for identity/gzip/deflate only (brotli/zstd contexts are megabytes by themselves)"]
     }
     fn expected_probes(&self) -> Vec<&'static str> {
         vec!["stream_pending", "payload_error", "truncated_compressed", "over_limit", "blocking_pool_chunk"]
